@@ -26,6 +26,22 @@ CLAIMED = {
         "decides R16.1-R16.5 on the current source; assumes values fit their fixed-width fields; coordinates 'to the "
         "precision of the format' and bond perception are not decided",
     ),
+    "C07": (
+        "symbolic array-update summaries of kernels (running counters closed by exact summation), polynomial index identities, sibling-kernel equivalence, analysis/synthesis duality",
+        "clause-level static decision on sht.py, _sht.pyx, assoc_legendre.py: index layouts, one packed traversal order for "
+        "the producer and all consumers, compiled kernels = pure-Python references update by update, transfer-tuple duality "
+        "of analysis and synthesis, orthonormal recurrence coefficients, coefficient expansion, FFT/quadrature plumbing. "
+        "This covers the algebraic structure that makes the transform exact; numerics are not decided.",
+        "decides R07.1-R07.7 on the current .py and .pyx sources (the compiled .so may lag the .pyx: Cython is absent); the "
+        "nphi rounding loop, Gauss-Legendre nodes/weights and floating-point exactness are not decided",
+    ),
+    "C08": (
+        "polynomial normal form of slice bounds and coefficient indices; exact factorial table check; bound propagation to table length",
+        "clause-level static decision: degree blocks [l^2,(l+1)^2) tile the coefficient vector in make_N_invariants and the "
+        "power spectrum, real-layout pattern/weights, P-invariant index plumbing (clebsch arguments vs coefficient indices, "
+        "loop order, triangle test, parity split), block-boundary cap, exact factorial table and its reachable index range.",
+        "decides R08.1-R08.3 on the current source; rotation invariance as a numerical fact and the Racah formula are not decided",
+    ),
 }
 
 PENDING_REASON = "check under construction (DESIGN.md section 5); not yet claimed"
